@@ -25,13 +25,70 @@ BUDGET = {'quick': {'examples': 1500, 'workers': 8},
           'thorough': {'examples': 25000, 'workers': 16}}
 
 
+def blob_strategy(n):
+    """blob writes inside savepoints (the statement's 'blob writes'): programs of C13's blob world,
+    restricted to one transaction's worth of writes, savepoints and rollbacks, then commit or abort"""
+    from checks.c13_blobs import DATA
+    i = st.integers(0, 2)
+    d = st.integers(0, len(DATA) - 1)
+    op = st.one_of(
+        st.tuples(st.just('write'), i, st.sampled_from(['w', 'w', 'a', 'r+']), d),
+        st.tuples(st.just('write'), i, st.sampled_from(['w', 'a']), d),
+        st.tuples(st.just('create'), i, d),
+        st.tuples(st.just('consume'), i, d),
+        st.tuples(st.just('setnode'), st.integers(1, 9)),
+        st.tuples(st.just('savepoint')), st.tuples(st.just('savepoint')),
+        st.tuples(st.just('rollback'), st.integers(0, 3)), st.tuples(st.just('rollback'), st.integers(0, 1)),
+        st.tuples(st.just('read'), i),
+        st.tuples(st.just('commit')), st.tuples(st.just('abort')),
+    ).map(list)
+    return st.fixed_dictionaries({'blob_kind': st.sampled_from(['fs', 'bmap']),
+                                  'first': st.sampled_from(['node', 'blob']),
+                                  'blob_ops': st.lists(op, min_size=3, max_size=n)})
+
+
 def strategy(tier):
     n = 20 if tier == 'quick' else 40
-    return st.fixed_dictionaries({'kind': st.sampled_from(['fs', 'mapping', 'demo']),
-                                  'ops': st.lists(objprog.op_strategy({'savepoint'}), min_size=3, max_size=n)})
+    plain = st.fixed_dictionaries({'kind': st.sampled_from(['fs', 'mapping', 'demo']),
+                                   'ops': st.lists(objprog.op_strategy({'savepoint'}), min_size=3, max_size=n)})
+    return st.one_of(plain, plain, plain, blob_strategy(n))
+
+
+def execute_blobs(case):
+    from checks import c13_blobs
+    out = Outcome()
+    out.evals = 0
+    clock.install()
+    locks.install()
+    clock.reset()
+    d = newdir()
+    w = c13_blobs.BlobWorld(case['blob_kind'], d, out, prop=PROPERTY)
+    nroll = 0
+    try:
+        for op in (['create', 0, 2], ['create', 1, 3], ['commit']):
+            w.step(op)
+        if case['first'] == 'blob':
+            # the blob is the first object the transaction touches (its record opens the savepoint store)
+            w.step(['write', 0, 'a', 1])
+            w.step(['savepoint'])
+        for op in case['blob_ops']:
+            w.step(op)
+            clock.CLOCK.advance(0.25)
+            out.evals += 1
+            if out.failures:
+                break
+            if op[0] == 'rollback' and 'rollback' in w.labels:
+                nroll += 1
+    finally:
+        w.close()
+    out.label('blobs-in-savepoints', *w.labels)
+    out.nontrivial = nroll >= 2
+    return out
 
 
 def execute(case):
+    if 'blob_ops' in case:
+        return execute_blobs(case)
     out = Outcome()
     out.evals = 0
     clock.install()
